@@ -974,3 +974,45 @@ func HighGlyphs(t *tape.Tape, n int) []glyph.ID {
 	}
 	return res
 }
+
+// LocaEdges are sizes of the "glyf" table around the largest offset the
+// short "loca" format can express (0xFFFF words = 0x1FFFE bytes).
+var LocaEdges = []int{0x1FFFC, 0x1FFFE, 0x20000, 0x20002, 0xFFFE, 0x10000}
+
+// PadGlyfTo appends simple glyphs carrying nothing but instructions to o until
+// the encoded "glyf" table has exactly target bytes (a writer has to choose the
+// "loca" format from that size).  It reports whether the size was reached.
+func PadGlyfTo(t *tape.Tape, o *glyf.Outlines, target int) bool {
+	tri := [][]point{{{0, 0, true}, {50, 100, true}, {100, 0, true}}}
+	base := func() int {
+		sg, _ := encodeSimple(t, tri, nil)
+		return len((glyf.Glyphs{&glyf.Glyph{Data: sg}}).Encode().GlyfData)
+	}()
+	for {
+		have := len(o.Glyphs.Encode().GlyfData)
+		need := target - have
+		if need == 0 {
+			return true
+		}
+		if need < base+2 || len(o.Glyphs) >= 65000 {
+			return false
+		}
+		l := need - base
+		if l > 60000 {
+			l = 60000
+			if need-base-l < base+2 {
+				l -= 2 * base
+			}
+		}
+		instr := make([]byte, l)
+		for i := range instr {
+			instr[i] = byte(i * 7)
+		}
+		sg, bbox := encodeSimple(t, tri, instr)
+		o.Glyphs = append(o.Glyphs, &glyf.Glyph{Rect16: bbox, Data: sg})
+		o.Widths = append(o.Widths, 500)
+		if o.Names != nil {
+			o.Names = append(o.Names, fmt.Sprintf("pad%d", len(o.Glyphs)))
+		}
+	}
+}
